@@ -140,7 +140,8 @@ Print Assumptions C10_tamper_lengths.
    with another first half is rejected; any other key is rejected when the
    plaintext is not empty (every response).  For a request (empty plaintext) a
    key that differs in the second half only is NOT covered - and is accepted by
-   the real AES-SIV (observation recorded in the configuration, cases tagged ctrhalf) *)
+   the real AES-SIV: see C10_different_key_clause_refuted and the known finding
+   siv-ctr-half-unused-empty-plaintext (kinds srv.ctrhalf, nts.ctrhalf) *)
 Theorem C10_wrong_key : forall seal open, aead_siv seal open ->
   forall b k1 p k2,
   verifies seal b k1 p ->
@@ -377,22 +378,27 @@ Theorem C10_model_meets_export_oracle : forall export : bytes -> bytes -> bytes,
 Proof. exact export_oracle. Qed.
 Print Assumptions C10_model_meets_export_oracle.
 
-(* the same under the hypotheses AES-SIV meets (the oracle's key clause is
-   key_accepts: the same key, or the same first half when the honest packet's
-   plaintext is empty) *)
-Theorem C10_model_meets_packet_oracle_siv : forall seal open, aead_siv seal open ->
-  forall hs b key dir reqid,
-  (forall h, In h hs -> honest_ok seal h) -> unforgeable seal hs b key dir ->
-  (forall h, In h hs -> model_accepts open (h_bytes h) (h_key h) (h_dir h) (h_uid h) = true) ->
-  (dir = 0 \/ dir = 1) ->
-  C10_packet_ok hs b key dir reqid (model_accepts open b key dir reqid) = true.
-Proof. exact siv_packet_oracle. Qed.
-Print Assumptions C10_model_meets_packet_oracle_siv.
+(* REFUTED for the real cipher: the clause "the use of a different key ... is
+   rejected" does not follow from what AES-SIV provides.  The cipher ex2 meets
+   aead_siv, and a request sealed by the project's encoder under k2 is accepted by
+   the server under the different key k1 (same first half).  The oracle keeps the
+   property's reading (the receiver's key must be the sender's key:
+   C10_model_meets_packet_oracle needs ideal_aead); on the real code the
+   listeners answer such a request: known finding siv-ctr-half-unused-empty-plaintext
+   (kinds srv.ctrhalf, nts.ctrhalf) *)
+Theorem C10_different_key_clause_refuted :
+  aead_siv ex2_seal ex2_open /\
+  exists k1 k2 hdr uid rnd b r,
+    k1 <> k2 /\ key_ok k1 = true /\ key_ok k2 = true /\
+    enc_packet ex2_seal hdr uid [] [] k2 [] rnd = Ok b /\
+    server_accept ex2_open b k1 = Ok r.
+Proof. exact different_key_clause_refuted. Qed.
+Print Assumptions C10_different_key_clause_refuted.
 
 (* the client's receive loop (kind cl.ip / cl.scion): for every sequence of
    datagrams, with or without a deadline, the oracle accepts the datagram the
    model computes the measurement from (third hypothesis: as above) *)
-Theorem C10_model_meets_client_oracle : forall seal open, aead_siv seal open ->
+Theorem C10_model_meets_client_oracle : forall seal open, ideal_aead seal open ->
   forall hs ds key reqid dl,
   (forall h, In h hs -> honest_ok seal h) ->
   (forall b, In b ds -> unforgeable seal hs b key 1) ->
